@@ -36,14 +36,11 @@ CHECKS = {
   'design_ref': 'DESIGN.md §7 C08/C09/C10',
  },
  'C06': {
-  'text': 'Proof (partial): for every L (incl. chains shorter than the longest term), all parameters and all Bose dimensions: the chain lists handed to from_opchains are well formed, are word by word '
-          'the documented sums of local terms (XXZ spin-1/2 and spin-1, Bose-Hubbard, Fermi-Hubbard with the Jordan-Wigner factor; Ising via its automaton), the compiled graphs denote those sums '
-          '(via C05/C17), operator tables are charge consistent (magnetization / particle number / spin) and whenever a constructor returns all tensors are block sparse, and the term lists are closed '
-          'under the adjoint word map for real parameters; the dense elements of the returned MPO equal the documented term lists for every L >= 1 and all parameters (XXZ, spin-1 XXZ, Bose-Hubbard every d, '
-          'Fermi-Hubbard, Ising) and the dense operator is Hermitian for real parameters; linear_fermionic: the hand-built graph is valid for every L >= 1 and denotes sum_i c_i I^i (C|A) Z^(L-1-i) '
-          '(Z-string to the right), dense elements and the +-1 charge shift (46 theorems; dense clauses conditional on the constructor returning). Not proved: that the constructors return for every L '
-          '(C05/C17 give it under their guards) and that the final is_qsparse assertion never fires.',
-  'note': KERNEL_NOTE + ' No kernel contracts. sqrt(2), sqrt(k) of the spin-1 / Bose tables are symbols whose square is given.',
+  'text': 'Proof (full for the listed models): for every L >= 1, all parameters (exact non-vanishing condition stated as an iff) and all Bose dimensions, the constructors of XXZ (spin-1/2, spin-1), '
+          'Bose-Hubbard, Fermi-Hubbard (Jordan-Wigner factor), Ising (automaton) and linear_fermionic (Z-string to the right) RETURN, the returned MPO has exactly the documented dense elements, is block '
+          'sparse under its quantum numbers (magnetization / particle number / spin; +-1 shift for the fermionic operators) and Hermitian for real parameters (five Hamiltonians) (60 theorems). '
+          'Tie: exact correspondence of chain lists, tables, graphs and MPO tensors for L = 1..6 plus an always-on numeric dense comparison.',
+  'note': KERNEL_NOTE + ' No kernel contracts. sqrt(2), sqrt(k) of the spin-1 / Bose tables are symbols whose square is given (driver: Q(sqrt2, sqrt3)).',
   'design_ref': 'DESIGN.md §7 C06',
  },
  'C07': {
@@ -52,7 +49,7 @@ CHECKS = {
           'explicit constructions: node ids pairwise distinct, terminal look-ups defined, (spinless, L >= 4) every look-up made by term insertion defined; tensors block sparse whenever a constructor '
           'returns; dense elements of the optimized MPOs equal the sum over the enumerated chains, and for the spinless optimized construction this equals sum_ij t_ij a+_i a_j + 1/2 sum_ijkl v_ijkl a+_i a+_j a_l a_k '
           'with dense Jordan-Wigner matrices (all 13 index orders, anticommutation relations proved); the gauge transform is modelled: shapes and table look-ups for every L, no KeyError and unitarity of the '
-          'gauge matrices under a nid_map well-formedness predicate proved for L = 4 and executed for L <= 8 (29 theorems). Not proved: spin-orbital chain sum = second-quantized operator, optimized = explicit '
+          'gauge matrices under a nid_map well-formedness predicate proved for L = 4 and executed for L <= 8; the optimized constructions RETURN iff some enumerated chain is non-zero (33 theorems). Not proved: spin-orbital chain sum = second-quantized operator, optimized = explicit '
           '(compared as complete graphs / MPOs by the correspondence and densely by the oracle); '
           'the conjugation identity of the gauge transform is not proved: it is tied by an exact correspondence on the 32 exactly representable monomial unitaries (L 4..7/8, every pair) and an always-on numerical stream for generic complex unitaries.',
   'note': KERNEL_NOTE + ' No kernel contracts.',
@@ -75,12 +72,12 @@ CHECKS = {
   'design_ref': 'DESIGN.md §7 C16',
  },
  'C05': {
-  'text': 'Proof (full for the chains->graph clause; graph->MPO conditional on the conversion returning): the half-chain partition and the site step preserve the weighted sum for ANY cover routine; '
-          'from_opchains denotes exactly the sum of padded chains (duplicates, accumulation, cancellation, single chain with any coefficient, L = 1), the graph is consistent, has the requested '
-          'length, and under the decidable guard ChainsWF the call returns (uses C18); from_opgraph tensors contract to the graph denotation for every operator map, bond charges are node charges '
-          'in sorted-id order, the node map locates every node; for graphs with a single sink (proved for from_opchains / from_automaton results) the resulting MPO is shaped and its digit-indexed elements, '
-          'hence both as_matrix forms, equal the sum over the denoted words (21 theorems). Tie: exact correspondence of complete graphs/MPOs incl. exhaustive small chain lists.',
-  'note': KERNEL_NOTE + ' No kernel contracts. from_opgraph theorems assume the call returns (operator ids present, charge-consistent operators).',
+  'text': 'Proof (full): the half-chain partition and the site step preserve the weighted sum for ANY cover routine; from_opchains denotes exactly the sum of padded chains (duplicates, accumulation, '
+          'cancellation, single chain with any coefficient, L = 1), the graph is consistent with a single sink, has the requested length, and under the decidable guard ChainsWF the call returns (uses C18); '
+          'from_opgraph returns on every consistent graph with charge-consistent operators (incl. the final is_qsparse assertion, parallel edges), its tensors contract to the graph denotation for every '
+          'operator map, bond charges are node charges in sorted-id order, the node map locates every node, and the resulting MPO elements / both as_matrix forms equal the sum over the denoted words; '
+          'end to end for chain lists (26 theorems). Tie: exact correspondence of complete graphs/MPOs incl. exhaustive small chain lists.',
+  'note': KERNEL_NOTE + ' No kernel contracts.',
   'design_ref': 'DESIGN.md §7 C05',
  },
  'C13': {
@@ -92,9 +89,9 @@ CHECKS = {
   'design_ref': 'DESIGN.md §7 C13',
  },
  'C17': {
-  'text': 'Proof (nearly full): graph from an automaton denotes the sum over automaton paths (site-dependent activity/coefficients, dead states pruned), is consistent and of length L; inserting chains/subtrees '
-          'adds exactly their padded path sums; graph from a tree list denotes the sum of padded trees before and after simplify and is consistent; dense meaning of chains, trees (incl. unequal heights, '
-          'single leaf) and graphs (both directions) equals the symbolic meaning under any operator map; length = L also after the final simplify (21 theorems). Not proved: totality of from_optrees/from_automaton.',
+  'text': 'Proof (full): from_automaton returns iff L >= 1 and the automaton admits an active path (decidable AutActive); the graph denotes the sum over automaton paths (site-dependent activity/coefficients, '
+          'dead states pruned), is consistent and of length L; from_optrees returns under the decidable guard TreeOk and denotes the sum of the identity-padded trees, consistent, length L (also after the '
+          'final simplify); dense meaning of chains, trees (incl. unequal heights, single leaf) and graphs (both directions) equals the symbolic meaning under any operator map (27 theorems).',
   'note': KERNEL_NOTE + ' No kernel contracts.',
   'design_ref': 'DESIGN.md §7 C17',
  },
@@ -180,7 +177,7 @@ CHECKS = {
   'text': 'Proof (full): the truncation rule for every spectrum, tolerance and every (unstable) sorting permutation over any linear ordered field (13 theorems), and the block-SVD split '
           'for all shapes and charge layouts under the SVD contract: no assertion fires, dimensions, sparsity of both factors for every oracle, isometries, the kept values are the rule '
           'applied to the concatenated block spectra (positive, weight <= tol, order, maximality, tol 0), error identity ||A - u s v||_F^2 = sum of discarded squares, exactness at tol 0, '
-          'the disjoint-charge case (33 theorems). Input non-mutation is carried by the correspondence (byte snapshot). split_mps_tensor is covered in C03.',
+          'the zero-matrix / disjoint-charge case (dummy bond of dimension 1), intermediate dimension >= 1 under the contracts for tol < 1 (36 theorems). Input non-mutation is carried by the correspondence (byte snapshot). split_mps_tensor is covered in C03.',
   'note': KERNEL_NOTE + ' NormContract/SortContract/SVDContract are assumptions about np.linalg.norm / np.argsort / np.linalg.svd.',
   'design_ref': 'DESIGN.md §7 C12',
  },
